@@ -98,7 +98,7 @@ def check(case):
 
 PARTS = [
     Part("ideal", lambda tier: procs.process_case(kinds=("ideal-iso", "ideal-noniso")), check, {"quick": 3000, "thorough": 100000},
-         floor={"quick": 500, "thorough": 15000}),
+         floor={"quick": 250, "thorough": 8000}),
     Part("non-ideal", lambda tier: procs.process_case(kinds=("nonideal-iso", "nonideal-noniso"), max_steps=6), check,
-         {"quick": 240, "thorough": 6000}, floor={"quick": 40, "thorough": 1000}, shrink={"quick": False, "thorough": True}),
+         {"quick": 240, "thorough": 6000}, floor={"quick": 25, "thorough": 500}, shrink={"quick": False, "thorough": True}),
 ]
